@@ -517,7 +517,7 @@ def rendezvous_table(ctx, facts):
             edges of a match on it (`let StreamState::X(v) = replace(..) else { unreachable!() }`, or an if-let) are dead"""
             cut = set()
             for sw, pl, arms in variant_arms(b, "collection::StreamState", facts):
-                if "mem::replace" in str(flow.expr_of(b, {"cp": pl}, max_depth=8)) and state in arms:
+                if re.search(r"mem::replace|OccupiedEntry<.*>::insert|OccupiedEntry::<.*>::insert", str(flow.expr_of(b, {"cp": pl}, max_depth=8))) and state in arms:
                     cut |= {(sw, x) for x in b.succs(sw) if x != arms[state]}
             return frozenset(cut)
 
@@ -528,8 +528,8 @@ def rendezvous_table(ctx, facts):
         writes_any = calls(r"mem::replace$|VacantEntry.*::insert$|OccupiedEntry.*::(insert|remove|remove_entry)$")
         if fn == "add_stream":
             ins = calls(r"VacantEntry.*::insert$", lambda a: "'Ready')" in a[1] and "('arg', 3)" in a[1])
-            rep = calls(r"mem::replace$", lambda a: "'Ready')" in a[1] and "('arg', 3)" in a[1])
-            wk = calls(r"Waker::wake(_by_ref)?$", lambda a: "mem::replace" in a[0])
+            rep = calls(r"mem::replace$|OccupiedEntry.*::insert$", lambda a: "'Ready')" in a[1] and "('arg', 3)" in a[1])
+            wk = calls(r"Waker::wake(_by_ref)?$", lambda a: "mem::replace" in a[0] or re.search(r"OccupiedEntry.*::insert", a[0]) is not None)
             ok = not returns_from(earms["Vacant"], ins) and bool(ins)
             ctx.ob("RENDEZVOUS", "add_stream:absent=>Ready(stream)", ok, "a stream that arrives first is stored as Ready" if ok else "a stream arriving before its receiver is not stored as Ready(stream) on every path: the receiver waits forever", site_of(b, earms["Vacant"]))
             ok = bool(rep) and not returns_from(sarms["Waiting"], rep, "Waiting")
@@ -542,12 +542,12 @@ def rendezvous_table(ctx, facts):
                 ok = not r and not w
                 ctx.ob("RENDEZVOUS", f"add_stream:{v}=>panic", ok, "a second stream for the same (query, peer, step) is refused loudly" if ok else f"a second stream for a key whose entry is {v} is accepted ({'returns normally' if r else 'overwrites the entry'}): records of two requests are mixed into / replace one channel", site_of(b, sarms[v]))
         else:
-            rep = calls(r"mem::replace$", lambda a: "'Completed')" in a[1])
+            rep = calls(r"mem::replace$|OccupiedEntry.*::insert$", lambda a: "'Completed')" in a[1])
             ok = bool(rep) and not returns_from(sarms["Ready"], rep, "Ready")
             ctx.ob("RENDEZVOUS", "add_waker:Ready=>Completed", ok, "handing the stream out leaves a tombstone" if ok else "a Ready stream can be handed out without marking the entry Completed: a second reader for the same channel is not detected / the stream stays in the map", site_of(b, sarms["Ready"]))
             dom = b.dominators()
             somes = [(bb, st) for bb, idx, st in b.iter_assigns() if st["p"] == [0] and st["r"]["k"] == "agg" and st["r"].get("adt") == "std::option::Option" and st["r"].get("vn") == "Some"]
-            ok = bool(somes) and all(flow.dominates(dom, sarms["Ready"], bb) and "mem::replace" in str(flow.expr_of(b, st["r"]["ops"][0], max_depth=25)) for bb, st in somes)
+            ok = bool(somes) and all(flow.dominates(dom, sarms["Ready"], bb) and re.search(r"mem::replace|OccupiedEntry.*::insert", str(flow.expr_of(b, st["r"]["ops"][0], max_depth=25))) is not None for bb, st in somes)
             ctx.ob("RENDEZVOUS", "add_waker:Some-is-the-replaced-stream", ok, "Some(stream) is returned only in the Ready arm and is the value taken out of the entry" if ok else "add_waker returns Some(..) outside the Ready arm or something other than the stream it took out of the entry", site_of(b, somes[0][0]) if somes else site_of(b))
             r = returns_from(sarms["Completed"])
             w = [x for x in writes_any if x in b.reachable(sarms["Completed"])]
@@ -636,14 +636,28 @@ def spare(ctx, facts):
         rdom = rd.dominators()
         reg = flow.edge_guards(rd)
         ix = [(bb, flow.expr_of(rd, t["args"][1], max_depth=8)) for bb, t in rd.calls() if (F.callee(t)[0] or "").endswith("ops::Index::index")]
+        via_get = False
+        if not ix:
+            # `self.buf.get(offset..end)?`: the slice is taken iff the range lies inside the buffer
+            ix = [(bb, flow.expr_of(rd, t["args"][1], max_depth=8)) for bb, t in rd.calls() if re.search(r"(slice::<impl \[T\]>|Vec::<T, A>)::get$", F.callee(t)[0] or "") and "buf" in str(flow.expr_of(rd, t["args"][0], max_depth=6))]
+            via_get = bool(ix)
         adv = [(bb, flow.expr_of(rd, s["r"]["o"], max_depth=8)) for bb, idx, s in rd.iter_assigns() if any(isinstance(e, list) and e[0] == "f" and e[2] == "offset" for e in s["p"][1:]) and "o" in s["r"]]
         if len(ix) != 1 or len(adv) != 1:
             raise NoEval("one slice and one offset update in read()")
+        if via_get:
+            from rules.C17 import variant_arms
+            arms = [a_ for sw_, pl_, a_ in variant_arms(rd, "std::option::Option", facts) if re.search(r"::get'", str(flow.expr_of(rd, {"cp": pl_}, max_depth=8))) and "Some" in a_]
+            cont = [a_.get("Continue") for sw_, pl_, a_ in variant_arms(rd, "std::ops::ControlFlow", facts)]
+            if not any(flow.dominates(rdom, a_["Some"], adv[0][0]) for a_ in arms) and not any(c_ is not None and flow.dominates(rdom, c_, adv[0][0]) for c_ in cont):
+                raise NoEval("the offset is advanced on a path on which get() may have returned None")
         for L in range(0, 7):
             for off in range(0, L + 1):
                 for sz in range(1, 6):
                     env = {LEN: L, OFF: off, SZ: sz}
                     on = all(OPS[op](ieval(l, env), ieval(r, env)) for tgt, (op, l, r) in reg if flow.dominates(rdom, tgt, ix[0][0]) and op in OPS)
+                    if via_get and on:
+                        glo, ghi = (ieval(x, env) for x in ix[0][1][2])
+                        on = glo <= ghi <= L
                     if on != (off + sz <= L) and bad is None:
                         bad = f"length {L}, offset {off}, size {sz}: read() {'reads' if on else 'refuses'} although the message {'does not fit' if on else 'fits'}"
                     if on:
@@ -655,5 +669,8 @@ def spare(ctx, facts):
     ctx.ob("SPARE", "read:slice-and-advance", bad is None, "read() = buf[offset..offset+size] iff it fits; offset += size" if bad is None else bad, site_of(rd))
     rt = [(F.callee(t)[0] or "").split("::")[-1] for bb, t in rp.calls()]
     zr = [1 for bb, idx, s in rp.iter_assigns() if any(isinstance(e, list) and e[0] == "f" and e[2] == "offset" for e in s["p"][1:]) and "o" in s["r"] and flow.expr_of(rp, s["r"]["o"]) == ("const", 0)]
-    okr = rt == ["truncate", "extend_from_slice"] and bool(zr)
+    clr = [t for bb, t in rp.calls() if re.search(r"Vec::<T, A>::(truncate|clear)$", F.callee(t)[0] or "")]
+    emptied = len(clr) == 1 and ((F.callee(clr[0])[0] or "").endswith("clear") or flow.expr_of(rp, clr[0]["args"][1]) == ("const", 0))
+    ext_ = [t for bb, t in rp.calls() if (F.callee(t)[0] or "").endswith("extend_from_slice")]
+    okr = sorted(rt) in (["extend_from_slice", "truncate"], ["clear", "extend_from_slice"]) and rt[-1] == "extend_from_slice" and emptied and len(ext_) == 1 and flow.expr_of(rp, ext_[0]["args"][1]) == ("arg", 2) and bool(zr)
     ctx.ob("SPARE", "replace:resets", okr, "replace(v): offset = 0, buf = v" if okr else "replace() does not reset the buffer to exactly the given bytes at offset 0", site_of(rp))
